@@ -84,6 +84,23 @@ def eval_graph(c, sub):
                                            {'gconf': c, 'atoms': list(sub), 'query': [repr(u), None, None, None]}, {'graph': graphs.describe(c, sub)}))
             except Exception:
                 pass
+    # twin with the ids turned into strings (same text, other type), queried in the same process right after: no decoded
+    # hop or key may be carried over from the graph with the original ids
+    if all(isinstance(n, int) for n in nodes) and len(sub) >= 1:
+        import dynetx as dn
+        G3 = getattr(dn, c['cls'])()
+        for (a, b, t) in sorted((atoms[i] for i in sub), key=lambda x: (x[2], x[0], x[1])):
+            G3.add_interaction(str(nodes[a]), str(nodes[b]), T[t])
+        P3 = set((str(a), str(b), t) for (a, b, t) in P)
+        for u in list(G3.nodes()):
+            cnt['queries'] += 1
+            try:
+                r = al.time_respecting_paths(G3, u)
+            except Exception as ex:
+                viols.append(Violation(PROP, 'call', {'kind': 'raises', 'exc': type(ex).__name__, 'entry': 'time_respecting_paths(str-id twin)', 'cls': c['cls']},
+                                       {'gconf': c, 'atoms': list(sub), 'query': ['twin', repr(u)]}, {'graph': graphs.describe(c, sub)}))
+                continue
+            _check_result(c, sub, P3, directed, ids, u, None, None, None, r, 'time_respecting_paths(str-id twin)', viols, cnt)
     if len(ids) >= 2 and len(sub) >= 2:
         cnt['nontrivial_graphs'] += 1
     return viols[:6], cnt
